@@ -19,138 +19,8 @@ func checkC07(c *Check) {
 	pp := L.ByRel["src/parser"]
 	info := pp.TypesInfo
 
-	// ---------------- R7.1 raw handler provenance ----------------
-	r1 := c.Rule("R7.1", "the user-supplied handler is invoked only inside the errored-recording wrapper and never passed on raw", 3)
-	isRaw := func(fi *FuncInfo, e ast.Expr) bool {
-		e = ast.Unparen(e)
-		if v := fieldOf(info, e); v != nil && v.Name() == "ErrorHandler" && v.Pkg() == pp.Types {
-			return true // parser.Options.ErrorHandler
-		}
-		if id, ok := e.(*ast.Ident); ok && fi.Obj.Name() == "newParser" {
-			if v, ok := info.Uses[id].(*types.Var); ok && v.Name() == "errorHandler" && isHandlerType(v.Type()) && !v.IsField() {
-				return true
-			}
-		}
-		return false
-	}
-	// flagsIntoFaulty: local variables that are read by an assignment to Ast.Faulty (their truth reaches the flag)
-	flagsIntoFaulty := map[types.Object]bool{}
-	for _, w := range L.FieldWrites(func(v *types.Var) bool { return isField(v, "ast", "Ast", "Faulty") }) {
-		if w.Rhs != nil {
-			ast.Inspect(w.Rhs, func(n ast.Node) bool {
-				if id, ok := n.(*ast.Ident); ok {
-					if v, ok := w.Fn.Pkg.TypesInfo.Uses[id].(*types.Var); ok && !v.IsField() {
-						flagsIntoFaulty[v] = true
-					}
-				}
-				return true
-			})
-		}
-	}
-	isWrapper := func(fl *ast.FuncLit) bool {
-		// contains `F = true` under `if <..>.Level == ddperror.LEVEL_ERROR`, F being parser.errored or a local that flows into Faulty
-		ok := false
-		ast.Inspect(fl.Body, func(n ast.Node) bool {
-			is, isIf := n.(*ast.IfStmt)
-			if !isIf {
-				return true
-			}
-			if be, isBin := ast.Unparen(is.Cond).(*ast.BinaryExpr); isBin && be.Op == token.EQL && strings.HasSuffix(L.Src(be.X), ".Level") && strings.HasSuffix(L.Src(be.Y), "LEVEL_ERROR") {
-				for _, st := range is.Body.List {
-					if as, isAs := st.(*ast.AssignStmt); isAs && len(as.Lhs) == 1 && L.Src(as.Rhs[0]) == "true" {
-						if v := fieldOf(info, as.Lhs[0]); v != nil && v.Name() == "errored" {
-							ok = true
-						}
-						if id, isId := as.Lhs[0].(*ast.Ident); isId && flagsIntoFaulty[info.Uses[id]] {
-							ok = true
-						}
-					}
-				}
-			}
-			return true
-		})
-		return ok
-	}
-	L.ForEachFunc([]string{"src/parser"}, func(fi *FuncInfo) {
-		var stack []ast.Node
-		ast.Inspect(fi.Decl, func(n ast.Node) bool {
-			if n == nil {
-				stack = stack[:len(stack)-1]
-				return true
-			}
-			stack = append(stack, n)
-			e, ok := n.(ast.Expr)
-			if !ok || !isRaw(fi, e) {
-				return true
-			}
-			if id, isId := n.(*ast.Ident); isId && info.Defs[id] != nil {
-				return true
-			}
-			q := L.QName(fi.Obj)
-			parent := stack[len(stack)-2]
-			// skip the selector's own sub-nodes: only consider the full raw expression
-			if sel, isSel := parent.(*ast.SelectorExpr); isSel && sel.Sel == n {
-				return true
-			}
-			switch p := parent.(type) {
-			case *ast.BinaryExpr:
-				if p.Op == token.EQL || p.Op == token.NEQ {
-					return true // nil test
-				}
-			case *ast.AssignStmt:
-				for _, l := range p.Lhs {
-					if l == e {
-						return true // default assignment to the raw slot itself
-					}
-				}
-			case *ast.CallExpr:
-				if p.Fun == e {
-					// invocation: must be inside the wrapper literal
-					inWrapper := false
-					for i := len(stack) - 1; i >= 0; i-- {
-						if fl, isFl := stack[i].(*ast.FuncLit); isFl && isWrapper(fl) {
-							inWrapper = true
-						}
-					}
-					r1.Decide(inWrapper, q+"|raw handler invoked", p.Pos(), "invoked inside the wrapper that sets errored on LEVEL_ERROR", "the user's handler is invoked outside the wrapper that records error-level diagnostics: an error can be delivered without failing the compilation")
-					return true
-				}
-				if fn := Callee(info, p); fn != nil && fn.Name() == "newParser" {
-					r1.OK(q+"|raw handler passed to newParser", p.Pos(), "newParser wraps it (its own uses are checked)")
-					return true
-				}
-			}
-			if q == "parser.(*Options).ToScannerOptions" {
-				// projection into scanner.Options: decided at its call sites (the handler must be replaced by a wrapper before scanning)
-				for _, cs := range L.CallSites(fi.Obj) {
-					okw := false
-					cq := L.QName(cs.Fn.Obj)
-					if as, isAs := parentOf(cs.Fn.Decl.Body, cs.Call).(*ast.AssignStmt); isAs && len(as.Lhs) == 1 {
-						if id, isId := as.Lhs[0].(*ast.Ident); isId {
-							obj := cs.Fn.Pkg.TypesInfo.Defs[id]
-							ast.Inspect(cs.Fn.Decl.Body, func(m ast.Node) bool {
-								if a2, isA2 := m.(*ast.AssignStmt); isA2 && len(a2.Lhs) == 1 && a2.Pos() > as.Pos() {
-									if sel, isSel := a2.Lhs[0].(*ast.SelectorExpr); isSel && sel.Sel.Name == "ErrorHandler" {
-										if x, isX := sel.X.(*ast.Ident); isX && cs.Fn.Pkg.TypesInfo.Uses[x] == obj {
-											if fl, isFl := a2.Rhs[0].(*ast.FuncLit); isFl && isWrapper(fl) {
-												okw = true
-											}
-										}
-									}
-								}
-								return true
-							})
-						}
-					}
-					r1.Decide(okw, cq+"|scanner options get a wrapped handler", cs.Call.Pos(), "the scanner's handler is replaced by a wrapper that records error-level diagnostics", "the scanner is given the user's handler without the errored-recording wrapper: error-level diagnostics delivered by the scanner do not mark the module faulty")
-				}
-				return true
-			}
-			r1.Bad(q+"|raw handler escapes", e.Pos(), "the user's handler is handed on without the errored-recording wrapper ("+trunc(L.Src(parent), 80)+"): error-level diagnostics delivered through it do not mark the module faulty")
-			return true
-		})
-	})
-
+	checkC07HandlerOnly(c)
+	_, isWrapper := handlerHelpers(c)
 	// ---------------- R7.2 flag writers ----------------
 	r2 := c.Rule("R7.2", "errored/Faulty have closed writer sets; Faulty := errored is the last diagnostic-capable step; checker phases mark before delivering", 8)
 	for _, w := range L.FieldWrites(func(v *types.Var) bool { return isField(v, "parser", "parser", "errored") }) {
@@ -738,4 +608,152 @@ func checkRanges(c *Check) {
 		})
 	}
 	_ = sort.Strings
+}
+
+// handlerHelpers builds the recognisers shared by R7.1/R7.2/R19.4.
+func handlerHelpers(c *Check) (isRaw func(fi *FuncInfo, e ast.Expr) bool, isWrapper func(fl *ast.FuncLit) bool) {
+	L := c.L
+	pp := L.ByRel["src/parser"]
+	info := pp.TypesInfo
+	// ---------------- R7.1 raw handler provenance ----------------
+	isRaw = func(fi *FuncInfo, e ast.Expr) bool {
+		e = ast.Unparen(e)
+		if v := fieldOf(info, e); v != nil && v.Name() == "ErrorHandler" && v.Pkg() == pp.Types {
+			return true // parser.Options.ErrorHandler
+		}
+		if id, ok := e.(*ast.Ident); ok && fi.Obj.Name() == "newParser" {
+			if v, ok := info.Uses[id].(*types.Var); ok && v.Name() == "errorHandler" && isHandlerType(v.Type()) && !v.IsField() {
+				return true
+			}
+		}
+		return false
+	}
+	// flagsIntoFaulty: local variables that are read by an assignment to Ast.Faulty (their truth reaches the flag)
+	flagsIntoFaulty := map[types.Object]bool{}
+	for _, w := range L.FieldWrites(func(v *types.Var) bool { return isField(v, "ast", "Ast", "Faulty") }) {
+		if w.Rhs != nil {
+			ast.Inspect(w.Rhs, func(n ast.Node) bool {
+				if id, ok := n.(*ast.Ident); ok {
+					if v, ok := w.Fn.Pkg.TypesInfo.Uses[id].(*types.Var); ok && !v.IsField() {
+						flagsIntoFaulty[v] = true
+					}
+				}
+				return true
+			})
+		}
+	}
+	isWrapper = func(fl *ast.FuncLit) bool {
+		// contains `F = true` under `if <..>.Level == ddperror.LEVEL_ERROR`, F being parser.errored or a local that flows into Faulty
+		ok := false
+		ast.Inspect(fl.Body, func(n ast.Node) bool {
+			is, isIf := n.(*ast.IfStmt)
+			if !isIf {
+				return true
+			}
+			if be, isBin := ast.Unparen(is.Cond).(*ast.BinaryExpr); isBin && be.Op == token.EQL && strings.HasSuffix(L.Src(be.X), ".Level") && strings.HasSuffix(L.Src(be.Y), "LEVEL_ERROR") {
+				for _, st := range is.Body.List {
+					if as, isAs := st.(*ast.AssignStmt); isAs && len(as.Lhs) == 1 && L.Src(as.Rhs[0]) == "true" {
+						if v := fieldOf(info, as.Lhs[0]); v != nil && v.Name() == "errored" {
+							ok = true
+						}
+						if id, isId := as.Lhs[0].(*ast.Ident); isId && flagsIntoFaulty[info.Uses[id]] {
+							ok = true
+						}
+					}
+				}
+			}
+			return true
+		})
+		return ok
+	}
+	return
+}
+
+// checkC07HandlerOnly is R7.1 (also used as R19.4).
+func checkC07HandlerOnly(c *Check) {
+	L := c.L
+	pp := L.ByRel["src/parser"]
+	info := pp.TypesInfo
+	isRaw, isWrapper := handlerHelpers(c)
+	r1 := c.Rule("R7.1", "the user-supplied handler is invoked only inside the errored-recording wrapper and never passed on raw", 3)
+	L.ForEachFunc([]string{"src/parser"}, func(fi *FuncInfo) {
+		var stack []ast.Node
+		ast.Inspect(fi.Decl, func(n ast.Node) bool {
+			if n == nil {
+				stack = stack[:len(stack)-1]
+				return true
+			}
+			stack = append(stack, n)
+			e, ok := n.(ast.Expr)
+			if !ok || !isRaw(fi, e) {
+				return true
+			}
+			if id, isId := n.(*ast.Ident); isId && info.Defs[id] != nil {
+				return true
+			}
+			q := L.QName(fi.Obj)
+			parent := stack[len(stack)-2]
+			// skip the selector's own sub-nodes: only consider the full raw expression
+			if sel, isSel := parent.(*ast.SelectorExpr); isSel && sel.Sel == n {
+				return true
+			}
+			switch p := parent.(type) {
+			case *ast.BinaryExpr:
+				if p.Op == token.EQL || p.Op == token.NEQ {
+					return true // nil test
+				}
+			case *ast.AssignStmt:
+				for _, l := range p.Lhs {
+					if l == e {
+						return true // default assignment to the raw slot itself
+					}
+				}
+			case *ast.CallExpr:
+				if p.Fun == e {
+					// invocation: must be inside the wrapper literal
+					inWrapper := false
+					for i := len(stack) - 1; i >= 0; i-- {
+						if fl, isFl := stack[i].(*ast.FuncLit); isFl && isWrapper(fl) {
+							inWrapper = true
+						}
+					}
+					r1.Decide(inWrapper, q+"|raw handler invoked", p.Pos(), "invoked inside the wrapper that sets errored on LEVEL_ERROR", "the user's handler is invoked outside the wrapper that records error-level diagnostics: an error can be delivered without failing the compilation")
+					return true
+				}
+				if fn := Callee(info, p); fn != nil && fn.Name() == "newParser" {
+					r1.OK(q+"|raw handler passed to newParser", p.Pos(), "newParser wraps it (its own uses are checked)")
+					return true
+				}
+			}
+			if q == "parser.(*Options).ToScannerOptions" {
+				// projection into scanner.Options: decided at its call sites (the handler must be replaced by a wrapper before scanning)
+				for _, cs := range L.CallSites(fi.Obj) {
+					okw := false
+					cq := L.QName(cs.Fn.Obj)
+					if as, isAs := parentOf(cs.Fn.Decl.Body, cs.Call).(*ast.AssignStmt); isAs && len(as.Lhs) == 1 {
+						if id, isId := as.Lhs[0].(*ast.Ident); isId {
+							obj := cs.Fn.Pkg.TypesInfo.Defs[id]
+							ast.Inspect(cs.Fn.Decl.Body, func(m ast.Node) bool {
+								if a2, isA2 := m.(*ast.AssignStmt); isA2 && len(a2.Lhs) == 1 && a2.Pos() > as.Pos() {
+									if sel, isSel := a2.Lhs[0].(*ast.SelectorExpr); isSel && sel.Sel.Name == "ErrorHandler" {
+										if x, isX := sel.X.(*ast.Ident); isX && cs.Fn.Pkg.TypesInfo.Uses[x] == obj {
+											if fl, isFl := a2.Rhs[0].(*ast.FuncLit); isFl && isWrapper(fl) {
+												okw = true
+											}
+										}
+									}
+								}
+								return true
+							})
+						}
+					}
+					r1.Decide(okw, cq+"|scanner options get a wrapped handler", cs.Call.Pos(), "the scanner's handler is replaced by a wrapper that records error-level diagnostics", "the scanner is given the user's handler without the errored-recording wrapper: error-level diagnostics delivered by the scanner do not mark the module faulty")
+				}
+				return true
+			}
+			r1.Bad(q+"|raw handler escapes", e.Pos(), "the user's handler is handed on without the errored-recording wrapper ("+trunc(L.Src(parent), 80)+"): error-level diagnostics delivered through it do not mark the module faulty")
+			return true
+		})
+	})
+
 }
